@@ -61,6 +61,17 @@ def jobs(tier, seed):
         for b in (1, 2):
             for wrap in ("negneg", "addzero", "mulone", "recrec"):
                 add(["Reciprocal", d] if False else d, "giveup", bound=b, reuse_after_giveup=wrap, nonzero=(wrap == "recrec"))
+    # consolidation rules that group nodes by their parameter: the bases are two independent SYMBOLIC numbers (grouping must be by exact equality)
+    B1, B2 = ["sym", "b1"], ["sym", "b2"]
+    pos = [["gt", "b1", 0], ["gt", "b2", 0]]
+    for d in [["Multiply", ["Exponential", fam.X, B1], ["Exponential", fam.Y, B2]], ["Multiply", ["Exponential", fam.X, B1], ["Exponential", fam.X, B2], ["Exponential", fam.Y, B1]],
+              ["Divide", ["Exponential", fam.X, B1], ["Exponential", fam.Y, B2]]]:
+        add(d, "pass", assume=pos)
+        add(d, "steps", assume=pos)
+    for d in [["Add", ["Logarithm", fam.X, B1], ["Logarithm", fam.Y, B2]], ["Add", ["Logarithm", fam.X, B1], ["Logarithm", fam.Y, B2], ["Logarithm", fam.Z, B1]],
+              ["Minus", ["Logarithm", fam.X, B1], ["Logarithm", fam.Y, B2]]]:
+        add(d, "pass", assume=pos + [["ne", "b1", 1], ["ne", "b2", 1]])
+        add(d, "steps", assume=pos + [["ne", "b1", 1], ["ne", "b2", 1]])
     f2 = fam.f2_quick(6, 0) if tier == "quick" else fam.f2("thorough")
     for d in f2:
         add(d, "pass")
